@@ -529,27 +529,64 @@ func navDispatchers(w *core.World) map[*ssa.Function]bool {
 // that on the other edge nothing but logging happens.
 func checkSigHandler(w *core.World, r *core.Report, h *ssa.Function, opname, parser string, sigIdx, modeIdx int, isEffect func(ssa.CallInstruction) bool, what string) {
 	key := fmt.Sprintf("%s handler %s", opname, core.QName(h))
-	var match *ssa.Call
+	var match ssa.Value
+	var matchPos token.Pos
+	var args []ssa.Value
 	for _, c := range core.CallsTo(h, stMatchFlag) {
 		if cc, ok := c.(*ssa.Call); ok {
+			match, matchPos, args = cc, cc.Pos(), core.CallArgs(cc)
+		}
+	}
+	if match == nil {
+		// the test may sit in a predicate helper of package vm shared by CATCH and CROAK: a function
+		// whose boolean result is MatchFlag(param i, param j) or false and that, apart from the range
+		// test and logging, does nothing
+		for _, c := range core.Calls(h) {
+			cc, ok := c.(*ssa.Call)
+			g := core.StaticCallee(c)
+			if !ok || g == nil || core.PkgOf(g) != "vm" || len(g.Blocks) == 0 {
+				continue
+			}
+			si, mi, effect, okp := sigPredicateHelper(g)
+			if !okp {
+				continue
+			}
+			ha := core.CallArgs(cc)
+			if si >= len(ha) || mi >= len(ha) {
+				continue
+			}
+			if effect != "" {
+				r.Bad("R6", key+": no effect when the flag does not match", cc.Pos(), "the signal test helper "+core.QName(g)+" does something before the flag is known to match: "+effect)
+			}
+			args = []ssa.Value{ha[0], ha[si], ha[mi]}
+			matchPos = cc.Pos()
 			match = cc
+			if cc.Type().String() != "bool" {
+				match = nil
+				if refs := cc.Referrers(); refs != nil {
+					for _, u := range *refs {
+						if ex, ok := u.(*ssa.Extract); ok && ex.Index == 0 {
+							match = ex
+						}
+					}
+				}
+			}
 		}
 	}
 	if match == nil {
 		r.Bad("R6", key+": condition", h.Pos(), "handler does not evaluate MatchFlag(sig, mode)")
 		return
 	}
-	args := core.CallArgs(match)
 	sc, si, ok1 := core.ExtractOf(core.Strip(args[1]))
 	mc, mi, ok2 := core.ExtractOf(core.Strip(args[2]))
 	okArgs := ok1 && ok2 && core.IsCallTo(sc, parser) && core.IsCallTo(mc, parser) && si == sigIdx && mi == modeIdx && sc == mc
-	r.Check(okArgs, "R6", key+": MatchFlag operands", match.Pos(),
+	r.Check(okArgs, "R6", key+": MatchFlag operands", matchPos,
 		fmt.Sprintf("MatchFlag(result %d, result %d of %s)", sigIdx, modeIdx, parser),
 		"MatchFlag is not applied to the decoded signal and mode (swapped, constant or foreign operands)")
 	trueEdges := core.EdgesWhere(match, true)
 	falseEdges := core.EdgesWhere(match, false)
 	if len(trueEdges) == 0 {
-		r.Bad("R6", key+": condition", match.Pos(), "the result of MatchFlag does not steer a branch")
+		r.Bad("R6", key+": condition", matchPos, "the result of MatchFlag does not steer a branch")
 		return
 	}
 	cut := core.NewCut().AddEdge(trueEdges...)
@@ -580,7 +617,7 @@ func checkSigHandler(w *core.World, r *core.Report, h *ssa.Function, opname, par
 		if in != nil {
 			detail = "calls " + core.CallName(in.(ssa.CallInstruction)) + " at " + w.Pos(in.Pos())
 		}
-		r.Check(in == nil, "R6", key+": no effect when the flag does not match", match.Pos(), "only logging on the no-match edge", "something happens although the flag does not match: "+detail)
+		r.Check(in == nil, "R6", key+": no effect when the flag does not match", matchPos, "only logging on the no-match edge", "something happens although the flag does not match: "+detail)
 	}
 }
 
@@ -798,4 +835,53 @@ func checkFlagAddressing(w *core.World, r *core.Report, rule string) {
 	}
 	checkNarrowing(w, r, rule, sfns, "a flag index or byte offset wraps: a write to a client flag lands on a reserved flag (or another client flag) although the write filter saw a legal index")
 	checkNarrowArithmetic(w, r, rule, sfns, "a flag byte offset or mask is computed in a type it can leave")
+}
+
+// sigPredicateHelper recognises a predicate helper around the signal test: its boolean (first)
+// result is, on every return, the result of State.MatchFlag applied to two of its parameters, or the
+// constant false. Returns the parameter indices of signal and mode, and a description of anything
+// the helper does besides the range test, the flag test, error construction and logging.
+func sigPredicateHelper(g *ssa.Function) (sigIdx, modeIdx int, effect string, ok bool) {
+	var m *ssa.Call
+	for _, c := range core.CallsTo(g, stMatchFlag) {
+		if cc, isCall := c.(*ssa.Call); isCall {
+			if m != nil {
+				return 0, 0, "", false
+			}
+			m = cc
+		}
+	}
+	if m == nil || g.Signature.Results().Len() == 0 || g.Signature.Results().At(0).Type().String() != "bool" {
+		return 0, 0, "", false
+	}
+	a := core.CallArgs(m)
+	if len(a) < 3 {
+		return 0, 0, "", false
+	}
+	sigIdx, modeIdx = paramIndex(core.Strip(a[1])), paramIndex(core.Strip(a[2]))
+	if sigIdx < 0 || modeIdx < 0 {
+		return 0, 0, "", false
+	}
+	for _, in := range allInstrs(g) {
+		if ret, isRet := in.(*ssa.Return); isRet {
+			v := core.ReturnValue(ret, 0)
+			for _, src := range core.Sources(v) {
+				if src == ssa.Value(m) {
+					continue
+				}
+				if c, isC := src.(*ssa.Const); isC && c.Value != nil && c.Value.String() == "false" {
+					continue
+				}
+				return 0, 0, "", false
+			}
+		}
+		if c, isCall := in.(ssa.CallInstruction); isCall && in != ssa.Instruction(m) {
+			name := core.CallName(c)
+			if isLoggingCall(c) || strings.HasPrefix(name, "fmt.") || strings.HasPrefix(name, "errors.") || strings.HasSuffix(name, ").FlagBitSize") || strings.Contains(name, "logging") {
+				continue
+			}
+			effect = "calls " + name
+		}
+	}
+	return sigIdx, modeIdx, effect, true
 }
